@@ -73,6 +73,7 @@ def install(ctx, repo, probes):
         ctx.target(k)
     for m in MODES4:
         ctx.target("calendar/" + m)
+        ctx.target("calendar/option-over-env/" + m)
 
 
 def call_main(repo, argv, env=None, local=(0, 0)):
@@ -369,6 +370,12 @@ def make_shift(rng, mode_how):
     if how == "option":
         pieces.append(["--calendar", mode] if rng.random() < 0.5
                       else ["--calendar=" + mode])
+    elif how == "both":
+        # the option wins over the environment variable
+        pieces.append(["--calendar", mode] if rng.random() < 0.5
+                      else ["--calendar=" + mode])
+        env["ISODATETIMECALENDAR"] = rng.choice(
+            [m for m in MODES4 if m != mode])
     elif how == "env":
         env["ISODATETIMECALENDAR"] = mode
     rng.shuffle(pieces)
@@ -398,6 +405,8 @@ def make_shift(rng, mode_how):
         classes.append("shift/multi-offset")
     if any(o[1][0] or o[1][1] for o in offs):
         classes.append("shift/nominal-offset")
+    if how == "both":
+        classes.append("calendar/option-over-env/" + mode)
     if "ISODATETIMEREF" in env:
         classes.append("shift/ref-env")
     if item == "ref" and "ISODATETIMEREF" not in env:
@@ -740,8 +749,9 @@ def workload(ctx, repo):
         mode = MODES4[k % 4] if k % 3 == 0 else "gregorian"
         v = k % 20
         if v < 9:
-            how = ("option", "env", "option")[k % 3] if mode != "gregorian" \
-                else rng.choice(("option", "env", "neither"))
+            how = ("option", "env", "both")[(k // 3) % 3] \
+                if mode != "gregorian" \
+                else rng.choice(("option", "env", "neither", "both", "both"))
             case = make_shift(rng, (mode, how))
         elif v < 11:
             case = make_print_format(rng, mode)
